@@ -32,7 +32,8 @@ def cases(draw, est=None, max_n=20000):
             "shape": draw(st.floats(0, 1)), "mirror": draw(st.booleans()),   # mirror: the long tail on the left
             "loc_sd": draw(st.sampled_from([0.0, 0.0, 3.0, 1e2, -1e2, 1e4, -1e4, 1e6])),
             "log_scale": draw(st.sampled_from([0.0, 0.0, -6.0, 6.0, draw(st.floats(-6, 6))])),
-            "fraction": draw(st.one_of(st.sampled_from([0.68268, 0.95449, 0.5]), st.floats(0.05, 0.95)))}
+            # "all fractions in (0,1)": also fractions holding less than one sample point, and nearly everything
+            "fraction": draw(st.one_of(st.sampled_from([0.68268, 0.95449, 0.5]), st.floats(0.05, 0.95), st.sampled_from([1e-4, 1e-3, 3e-3, 0.01, 0.99, 0.997])))}
 
 
 def make_sample(case):
